@@ -6,6 +6,19 @@ PENDING = "check not built yet in this round (specification and driver in progre
 
 # id -> (level text, level note, technique, design ref)
 BUILT = {
+ "C19": ("Orchestrator.tla models the script (scan transcribed line by line, decide, per-entry rmtree, the two mkdirs of makedirs, "
+         "launch with choice of workflow and inputs), the launched pipeline (one Publish per file, any order allowed by the "
+         "process DAG of the workflow launched, incl. the prospective metadata job that is independent of the step's outputs), "
+         "Crash in every non-idle state and the operator removing only a directory the script named; TLC checks "
+         "NoCompletedDeleted, SameAsCrashFree, NeverDies, NoRelaunchOfCompleted, NoSkipStrict for both modes, batch sizes "
+         "1..4, up to 3 crashes, and liveness under fairness. The REAL script is run in-process against a temporary tree with a "
+         "model pipeline and crash injection at every filesystem mutation / publish: every single crash point and pairs of crash "
+         "points are enumerated, reruns and operator removals performed, and every event log is replayed action by action by "
+         "TraceOrchestrator with all C19 clauses evaluated in every state; final tree compared with the uninterrupted run.",
+         "Nextflow is represented by a model pipeline (atomic publishes respecting process dependencies); determinism of pipeline "
+         "steps; operator removes exactly the named directory; two genuine defects found this way were repaired (fix: commits).",
+         "TLA+ state machine + TLC (safety, liveness); exhaustive crash-point enumeration of the real script validated as traces against the spec",
+         "5/C19"),
  "C02": ("Lifecycle.tla models the lineage of screens and files (split, reveal, mask, unmask, set_observed, save, load, CLI "
          "reveal/metadata); TLC checks LoadIsSaved / SaveIsCurrent on every explored transition for several fixtures "
          "(unicode/empty/unequal-length names, empty or absent control name, mappings larger than the data after a hold-out, "
